@@ -5,6 +5,7 @@ import (
 	"runtime"
 	"sync"
 	"sync/atomic"
+	"time"
 
 	"gopkg.in/typ.v4/sync2"
 )
@@ -52,38 +53,46 @@ func driveAtomicValue(plan []M, out *Out, _ []string) {
 		}
 		out.Emit(M{"ev": "inv", "t": 1, "op": op, "a": a, "b": b})
 		r, ok := 0, true
-		p := protect(func() {
-			switch ty {
-			case "string":
-				switch op {
-				case "Load":
-					if s := vs.Load(); s != "" {
-						r = int(s[0] - 'a')
+		p, hung := "", false
+		withWatchdog(20*time.Second, &hung, func() {
+			p = protect(func() {
+				switch ty {
+				case "string":
+					switch op {
+					case "Load":
+						if s := vs.Load(); s != "" {
+							r = int(s[0] - 'a')
+						}
+					case "Store":
+						vs.Store(enc(a))
+					case "Swap":
+						if s := vs.Swap(enc(a)); s != "" {
+							r = int(s[0] - 'a')
+						}
+					case "CompareAndSwap":
+						ok = vs.CompareAndSwap(enc(a), enc(b))
 					}
-				case "Store":
-					vs.Store(enc(a))
-				case "Swap":
-					if s := vs.Swap(enc(a)); s != "" {
-						r = int(s[0] - 'a')
+				case "struct":
+					switch op {
+					case "Load":
+						r = vt.Load().A
+					case "Store":
+						vt.Store(avS{a, a * 2})
+					case "Swap":
+						r = vt.Swap(avS{a, a * 2}).A
+					case "CompareAndSwap":
+						ok = vt.CompareAndSwap(avS{a, a * 2}, avS{b, b * 2})
 					}
-				case "CompareAndSwap":
-					ok = vs.CompareAndSwap(enc(a), enc(b))
+				default:
+					r, ok = avApply(v, op, a, b)
 				}
-			case "struct":
-				switch op {
-				case "Load":
-					r = vt.Load().A
-				case "Store":
-					vt.Store(avS{a, a * 2})
-				case "Swap":
-					r = vt.Swap(avS{a, a * 2}).A
-				case "CompareAndSwap":
-					ok = vt.CompareAndSwap(avS{a, a * 2}, avS{b, b * 2})
-				}
-			default:
-				r, ok = avApply(v, op, a, b)
-			}
+			})
 		})
+		if hung {
+			// a single call on a value nobody else uses did not come back: no validator action explains the line
+			out.Emit(M{"ev": "stall", "what": "call did not return", "op": op})
+			return
+		}
 		out.Emit(M{"ev": "ret", "t": 1, "r": r, "ok": ok, "panic": p})
 	}
 }
@@ -124,7 +133,11 @@ func stressAtomicValue(plan []M, out *Out, _ []string) {
 				}(t)
 			}
 			close(start)
-			wg.Wait()
+			if !waitPatient(&wg, 120*time.Second) {
+				// lock-free calls that do not come back (every call returns: AtomicCAS.tla's EveryCallReturns): no validator action explains the line
+				out.Emit(M{"ev": "stall", "what": "calls did not return"})
+				return
+			}
 			if !logh {
 				out.Emit(M{"ev": "round", "round": r})
 				continue
@@ -197,7 +210,11 @@ func stressPool(plan []M, out *Out, _ []string) {
 				}(t)
 			}
 			close(start)
-			wg.Wait()
+			if !waitPatient(&wg, 120*time.Second) {
+				// lock-free calls that do not come back (every call returns: AtomicCAS.tla's EveryCallReturns): no validator action explains the line
+				out.Emit(M{"ev": "stall", "what": "calls did not return"})
+				return
+			}
 			if logh {
 				for _, e := range evs {
 					out.Emit(e)
@@ -242,7 +259,11 @@ func countAtomicValue(plan []M, out *Out, _ []string) {
 					}(t)
 				}
 				close(start)
-				wg.Wait()
+				if !waitPatient(&wg, 120*time.Second) {
+					// lock-free calls that do not come back (every call returns: AtomicCAS.tla's EveryCallReturns): no validator action explains the line
+					out.Emit(M{"ev": "stall", "what": "calls did not return"})
+					return
+				}
 				if got := v.Load(); got != x && got != (big{}) || v.Load() != x {
 					if bad == 0 {
 						firstBad = r
@@ -311,7 +332,11 @@ func countAtomicValue(plan []M, out *Out, _ []string) {
 				}(t)
 			}
 			close(start)
-			wg.Wait()
+			if !waitPatient(&wg, 120*time.Second) {
+				// lock-free calls that do not come back (every call returns: AtomicCAS.tla's EveryCallReturns): no validator action explains the line
+				out.Emit(M{"ev": "stall", "what": "calls did not return"})
+				return
+			}
 			if kind == "eqstore" {
 				out.Emit(M{"ev": "eqstore", "fails": succ[0], "tries": nops})
 				continue
@@ -384,7 +409,11 @@ func holdersPool(plan []M, out *Out, _ []string) {
 				}(t)
 			}
 			close(start)
-			wg.Wait()
+			if !waitPatient(&wg, 120*time.Second) {
+				// lock-free calls that do not come back (every call returns: AtomicCAS.tla's EveryCallReturns): no validator action explains the line
+				out.Emit(M{"ev": "stall", "what": "calls did not return"})
+				return
+			}
 			m, g := int32(0), 0
 			for t := 0; t < nt; t++ {
 				if maxSeen[t] > m {
